@@ -98,7 +98,7 @@ class T2Case(Case):
     def interp(self, ctx):
         return Interp(ctx, summaries=summaries(), unroll=UNROLL)
 
-    STANDIN_BOUND = ("inputs of every length 0..48 and 64, 300, 700 bytes x 3 byte patterns (small values, random, 0xff-heavy) x start "
+    STANDIN_BOUND = ("inputs of every length 0..48 and 64, 300, 700 bytes x 7 byte patterns (small values, random, 0xff-heavy, UTF-16 surrogate pairs LE/BE at even/odd offsets) x start "
                      "offsets {0, 3 or 16}, seeded by the case name")
 
     def standin(self):
@@ -114,13 +114,18 @@ class T2Case(Case):
         n = 0
         off = 16 if self.prog.align else 3
         for ln in list(range(0, 49)) + [64, 300, 700]:
-            for pat in range(3):
+            for pat in range(7):
                 if pat == 0:
                     body = bytes(rnd.choice((0, 1, 2, 3)) for _ in range(ln))
                 elif pat == 1:
                     body = bytes(rnd.randrange(256) for _ in range(ln))
-                else:
+                elif pat == 2:
                     body = bytes(rnd.choice((0xFF, 0xFF, 0x80, 0x7F, 2)) for _ in range(ln))
+                else:
+                    # UTF-16 surrogate pairs (little / big endian), at even and odd offsets
+                    unit = (0x3D, 0xD8, 0x00, 0xDC) if pat in (3, 5) else (0xD8, 0x3D, 0xDC, 0x00)
+                    body = (b"\x02" if pat >= 5 else b"") + bytes(unit[i % 4] for i in range(ln))
+                    body = body[:ln]
                 for p in (0, off):
                     inputs = {"D": (bytes(rnd.randrange(256) for _ in range(p)) + body).hex(), "p": p}
                     n += 1
@@ -471,7 +476,11 @@ class Pipeline(T2Case):
         ctx.prove("C09/window-end", ctx.eq(_norm(zint(p) + zint(s3.pos)), end), info="stream left at p + encoded size")
         if T.size is not None:
             # the encoded size of a fixed-size type is its declared size (pinned independently of the reader under test)
-            ctx.prove("C09/end==p+len(T)", ctx.eq(end, _norm(zint(p) + T.size)), info=f"len(T)={T.size}")
+            # (when the input holds the whole extent: trailing padding is not data, an input that lacks only padding is
+            # accepted by design - C08 speaks of data-carrying bytes)
+            whole = z3.Length(seg.seq) >= zint(p) + T.size
+            e = ctx.eq(end, _norm(zint(p) + T.size))
+            ctx.prove("C09/end==p+len(T)", True if e is True else z3.Implies(whole, e if not isinstance(e, bool) else z3.BoolVal(e)), info=f"len(T)={T.size}")
 
     # -- C02
     def fidelity(self, ctx, it, D, p, B, T):
@@ -655,7 +664,7 @@ def native_pipeline(prog, compiled, props, inputs):
             w = T._read(io.BytesIO(data[p:]))
             if not native_equiv(w, v) or dict(w._sizes) != dict(v._sizes):
                 bad.append(f"T(D[p:]) differs: {w!r} sizes {w._sizes} vs {v._sizes}"[:300])
-            if T.size is not None and consumed != T.size:
+            if T.size is not None and consumed != T.size and len(data) - p >= T.size:
                 bad.append(f"stream left at p + {consumed}, len(T) = {T.size}")
         except Exception as e:  # noqa: BLE001
             bad.append(f"T(D[p:]) raises {type(e).__name__}")
